@@ -68,9 +68,18 @@ def run(cmd, cwd=None, timeout=1200, env=None, input=None):
 
 # ------------------------------------------------------------------------------ proof leg
 
+def write_coqproject():
+    files = sorted(os.path.relpath(p, COQ) for p in glob.glob(os.path.join(COQ, "**", "*.v"), recursive=True))
+    txt = "-Q . ZenoV\n-arg -w -arg -deprecated\n" + "\n".join(files) + "\n"
+    path = os.path.join(COQ, "_CoqProject")
+    if not os.path.exists(path) or open(path).read() != txt:
+        open(path, "w").write(txt)
+
+
 def coq_make():
     """Full .vo build (incremental).  Returns (ok, log)."""
     with Lock(".coq.lock"):
+        write_coqproject()
         if not os.path.exists(os.path.join(COQ, "Makefile")) or \
                 os.path.getmtime(os.path.join(COQ, "Makefile")) < os.path.getmtime(os.path.join(COQ, "_CoqProject")):
             rc, out = run(["coq_makefile", "-f", "_CoqProject", "-o", "Makefile"], cwd=COQ)
@@ -216,6 +225,7 @@ class LegResult:
         self.diffs = []   # (input, shard, idx)
         self.mons = []    # (input, monitor number, shard, idx)
         self.errors = []
+        self.tags = {}    # input -> tags of that case
         self.wall = 0.0
 
 
@@ -251,6 +261,13 @@ def run_leg(binary, driver, n, seed, tier, shard=250, corpus=None, single_input=
                 lr.errors.append("model evaluation failed on %s: %s" % (r["shard"], r["error"]))
                 continue
             inputs = open(os.path.join(work, r["shard"] + ".inputs")).read().split("\n")
+            try:
+                tags = open(os.path.join(work, r["shard"] + ".tags")).read().split("\n")
+            except OSError:
+                tags = []
+            for i in set(r["diff"]) | set(i for (i, _) in r["mon"]):
+                if i < len(tags):
+                    lr.tags[inputs[i]] = [t for t in tags[i].split(",") if t]
             for i in r["diff"]:
                 lr.diffs.append((inputs[i], r["shard"], i))
             for (i, k) in r["mon"]:
